@@ -369,7 +369,7 @@ func (c *Ctx) Finish() {
 		os.Exit(1)
 	case "inconclusive":
 		fmt.Printf("INCONCLUSIVE property=%s %s\n", c.ID, strings.Join(c.inconcl, "; "))
-		os.Exit(2)
+		os.Exit(4) // 2 is what the Go runtime uses for fatal errors and unrecovered panics
 	}
 	os.Exit(0)
 }
